@@ -390,7 +390,7 @@ func init() {
 			pf.BatchPct, pf.BatchMax = 15, pick(r, []int{5, 5, 5, 16, 40})
 			pf.GatedPct, pf.DelayPct = pick(r, []int{0, 50}), 20
 			pf.Cancellers, pf.CancelOps = [2]int{0, 1}, [2]int{1, 2}
-			pf.Cancel = []wop{{opPurge, 2}, {opCloseJob, 3}}
+			pf.Cancel = []wop{{opPurge, 2}, {opCloseJob, 3}, {opCloseQueue, 1}}
 			pf.Ctrl = []wop{{opPause, 2}, {opResume, 2}, {opSettle, 2}}
 			pf.CtrlOps = [2]int{0, 3}
 			pf.Releaser = 100
